@@ -122,7 +122,7 @@ def gen(rng, tier, idx):
     scn["regime"] = rng.weighted([(60, "clean"), (25, "fault"), (15, "noise")])
     scn["tokens"] = gen_tokens(rng, "fault" if (scn["regime"] == "fault" or (scn["regime"] == "noise" and rng.chance(60))) else "clean", scn["opts"])
     scn["k"] = rng.below(1000)
-    scn["faults"] = []
+    scn["faults"] = workloads.inert_environment(rng) if rng.chance(12) else []
     if scn["regime"] == "noise":
         scn["noise"], scn["noise_equiv"] = gen_noise(rng)
     return scn
@@ -149,7 +149,10 @@ def gen_noise(rng):
         elif k == 6:
             a.append(["exec", "OP_NOSUCHOP"])                                                        # rejected before execution
         elif k == 7:
-            a.append(["tf", "sha256", "0x01"]); a.append(["print"])
+            a.append(rng.choice([["tf", "sha256", "0x01"], ["tf", "bech32-encode", "0x" + "11" * 20], ["tf", "addr-to-scriptpubkey", "1BvBMSEYstWetqTFn5Au4m4GFg7xJaNVN2"],
+                                 ["tf", "verify-sig", "0x" + "22" * 32, "0x02" + "33" * 32, "0x3006020101020101"], ["tf", "combine-pubkeys", "0x02" + "79be667ef9dcbbac55a06295ce870b07029bfcdb2dce28d959f2815b16f81798", "0x02" + "79be667ef9dcbbac55a06295ce870b07029bfcdb2dce28d959f2815b16f81798"],
+                                 ["help"], ["stack"], ["tf", "-h"]]))
+            a.append(["print"])
         else:
             a.append(["exec", "OP_RESERVED"])                                                        # bad opcode: no effect at all (not even counted)
     return a, b
